@@ -1144,9 +1144,13 @@ class Engine:
                     res.append(self._raise_out(s1, e1))
                     continue
                 s1.ghost["_k"] = k
+                n_before = len(s1.trace)
                 for s2, o in self.exec_block(node.body, s1):
                     if o.kind in ("next", "continue"):
                         self.check_invariants(s2, spec, k + 1, seq, f"loop{k_ord}.preserve")
+                        # per-iteration clauses over the effects of THIS (arbitrary) iteration: fn(E, state, events)
+                        for nm, role, fn in spec.get("iteration_ensures", ()):
+                            self.oblige(s2, f"loop{k_ord}.iteration.{nm}", fn(self, s2, s2.trace[n_before:]), role, f"loop{k_ord}.iteration")
                     elif o.kind == "break":
                         s2.ghost.pop("_k", None)
                         res.append((s2, Out("next")))
